@@ -982,7 +982,7 @@ class RemoterTls(Remoter):
 
         if data:  # connection open
             if self.wl:  # log over the wire rx
-                self.wl.writeRx(data, who=self.cs.getpeername())
+                self.wl.writeRx(data, who=self.ca)
 
         else:  # data empty so connection closed on other end
             self.cutoff = True
@@ -1020,7 +1020,7 @@ class RemoterTls(Remoter):
 
         if result:
             if self.wl:
-                self.wl.writeTx(data[:result], who=self.cs.getpeername())
+                self.wl.writeTx(data[:result], who=self.ca)
 
         return result
 
